@@ -19,7 +19,7 @@ INCLUDE = os.path.join(VERIF, 'include')
 MEM_LIMIT = 12 * 1024 * 1024 * 1024
 
 DEFAULT_FLAGS = ['--no-standard-checks', '--bounds-check', '--pointer-check',
-                 '--div-by-zero-check', '--pointer-primitive-check',
+                 '--div-by-zero-check',
                  '--malloc-may-fail', '--malloc-fail-null', '--unwinding-assertions']
 
 
